@@ -131,6 +131,11 @@ func (ex *Exec) visitInstr(fr *frame, instr ssa.Instruction) bool {
 			}
 			fr.result = res
 		}
+		if ex.eng.returnHooks != nil {
+			if h := ex.eng.returnHooks[fr.fn]; h != nil {
+				h(ex, fr)
+			}
+		}
 		fr.block = nil
 		return true
 	case *ssa.RunDefers:
@@ -413,6 +418,11 @@ func (ex *Exec) runFrame(fr *frame) {
 	}()
 	for {
 		block := fr.block
+		if ex.eng.blockHooks != nil {
+			if h := ex.eng.blockHooks[block]; h != nil {
+				h(ex, fr)
+			}
+		}
 		// phis
 		n := 0
 		for n < len(block.Instrs) {
